@@ -29,7 +29,14 @@ Section Inst.
         (tg =? fid + 1) && negb (req && Net.is_nil d) && forallb (fun kv => goodb kf (fst kv) && goodb vf (snd kv)) d
     | _, _ => plain x && fix_point f x
     end.
-  Definition input_ok (f : field) (x : pyval) : bool := plain x || goodb f x.
+  (* at the top the required/empty test is validate's own business (it rejects): only the items have to be good *)
+  Definition goodb_top (f : field) (x : pyval) : bool :=
+    match f, x with
+    | FListT fid _ it, PList tg l => (tg =? fid + 1) && forallb (goodb it) l
+    | FDictT fid _ kf vf, PDict tg d => (tg =? fid + 1) && forallb (fun kv => goodb kf (fst kv) && goodb vf (snd kv)) d
+    | _, _ => goodb f x
+    end.
+  Definition input_ok (f : field) (x : pyval) : bool := plain x || goodb_top f x.
 
   (* Field.validate on the values the state machine can present: plain data (arguments, documents) and what
      to_python of this field built from plain data.  Anything else (a proxy with items that were never validated, a
